@@ -1,10 +1,11 @@
 (* C10 — The inverse DCT meets the H.263 Annex A accuracy requirements.
    The statistical statement over the 60 000 Annex A blocks is evaluated on the extracted model (= the
    implementation, block by block) by the check; in the kernel: all DC-only blocks, the basis table, the zero
-   block and a 60-block sample of the Annex A runs.  The analytic bound for all blocks is not yet proved. *)
+   block and a 60-block sample of the Annex A runs; and, for EVERY 8x8 block with coefficients in -2048..2048 and every
+   position, the analytic peak-error bound against the exact real-number transform (IdctAccuracy.v). *)
 From Coq Require Import Reals.
 From H263V Require Import base.Prelude model.Types model.Tables model.F32 model.Recon
-  proofs.IdctFacts proofs.BasisTable proofs.AnnexASample.
+  proofs.IdctFacts proofs.BasisTable proofs.AnnexASample proofs.IdctAccuracy.
 Local Open Scope Z_scope.
 
 (* every DC-only block (all 4096 coefficient values): the shortcut adds dc/8 rounded half away from zero ... *)
@@ -27,7 +28,29 @@ Theorem C10_annexA_sample_in_kernel :
   length sample_blocks = 60%nat /\ all_within1 sample_blocks sample_reference = true.
 Proof. exact annexA_sample_ok. Qed.
 
+(* The exact transform: ideal4 F x y = sum_v (sum_u F[v][u] C(u) cos((2x+1) u pi/16)) C(v) cos((2y+1) v pi/16), four times the
+   inverse DCT of H.263 6.2.4 (C(0) = 1/sqrt 2, C(k) = 1); Rclamp lo hi t = min hi (max lo t).
+   For every block (all 4097^64 of them) and every position the binary32 two-pass transform, its division by four, the
+   half-away-from-zero rounding and the clip stay within 0.632 of the exact clipped value ... *)
+Theorem C10_full_blocks_accurate : forall rows xo yo,
+  length rows = 8%nat -> (forall r f, (r < 8)%nat -> (f < 8)%nat -> Z.abs (nth f (nth r rows []) 0) <= 2048) ->
+  (xo < 8)%nat -> (yo < 8)%nat ->
+  (Rabs (IZR (idct_value_at (idct_values (DctFull rows)) (Z.of_nat xo) (Z.of_nat yo))
+         - Rclamp (-256) 255 (ideal4 (fun r f => nth f (nth r rows []) 0%Z) xo yo / 4)) <= 0.632)%R.
+Proof. exact full_block_accurate. Qed.
+
+(* ... hence within 1 of the reference however the reference rounds to a nearest integer: Annex A's peak-error
+   requirement for every block *)
+Theorem C10_full_blocks_peak_error : forall rows xo yo (k : Z),
+  length rows = 8%nat -> (forall r f, (r < 8)%nat -> (f < 8)%nat -> Z.abs (nth f (nth r rows []) 0) <= 2048) ->
+  (xo < 8)%nat -> (yo < 8)%nat ->
+  (Rabs (IZR k - ideal4 (fun r f => nth f (nth r rows []) 0%Z) xo yo / 4) <= 1 / 2)%R ->
+  Z.abs (idct_value_at (idct_values (DctFull rows)) (Z.of_nat xo) (Z.of_nat yo) - clamp (-256) 255 k) <= 1.
+Proof. exact full_block_within_1. Qed.
+
 Print Assumptions C10_dc_blocks_exact.
 Print Assumptions C10_basis_table.
 Print Assumptions C10_zero_block.
 Print Assumptions C10_annexA_sample_in_kernel.
+Print Assumptions C10_full_blocks_accurate.
+Print Assumptions C10_full_blocks_peak_error.
